@@ -286,6 +286,17 @@ func init() {
 			{Dir: "root", Name: "ZZ_C06_strict", Reach: []string{"parsed", "accepted", "rejected"}, Tweak: hdStubs()},
 		},
 	})
+	b58Stubs := func(kv ...interface{}) func(c *sym.HarnessCfg, tier string) {
+		return func(c *sym.HarnessCfg, tier string) {
+			c.Stubs = map[string]string{
+				"github.com/gcash/bchutil/base58.Encode": "zzStubEncode",
+				"github.com/gcash/bchutil/base58.Decode": "zzStubDecode",
+			}
+			for i := 0; i+1 < len(kv); i += 2 {
+				c.Params[kv[i].(string)] = kv[i+1].(int)
+			}
+		}
+	}
 	c08 := func(alloc int, kv ...interface{}) func(c *sym.HarnessCfg, tier string) {
 		return func(c *sym.HarnessCfg, tier string) {
 			c.AllocLimit = alloc
@@ -312,22 +323,12 @@ func init() {
 			{Dir: "bloom", Name: "ZZ_C08_filterload", Reach: []string{"in", "end"}, Tweak: chain(bloomStubs("maxk", 2, "maxop", 4, "maxpushes", 1, "maxpushlen", 1), c08(0))},
 			{Dir: "gcs", Name: "ZZ_C08_frombytes", Variant: "bytes<=1", Reach: []string{"built", "end"}, Tweak: chain(gcsCfg("maxbytes", 1), c08(4096))},
 			{Dir: "gcs", Name: "ZZ_C08_fromnbytes", Variant: "bytes<=2", Tiers: "thorough", Reach: []string{"built", "rejected"}, Tweak: chain(gcsCfg("maxbytes", 2), c08(4096))},
-			{Dir: "merkleblock", Name: "ZZ_C12_extract", Variant: "alloc,n<=1", Reach: []string{"extracted"}, Tweak: chain(merkleCfg("maxn", 1, "maxflagbytes", 1, "hashbits", 2, "bigcounthashes", 1), c08(65536))},
+			{Dir: "base58", Name: "ZZ_C08_checkdecode", Reach: []string{"end"}, Tweak: chain(b58Stubs("maxdecoded", 8), c08(0))},
+			{Dir: "merkleblock", Name: "ZZ_C12_extract", Variant: "alloc,n<=1", PanicsOnly: true, Reach: []string{"extracted"}, Tweak: chain(merkleCfg("maxn", 1, "maxflagbytes", 1, "hashbits", 2, "bigcounthashes", 1), c08(65536))},
 			{Dir: "jsonpb", Name: "ZZ_C08_convert", Variant: "depth1,width2", Reach: []string{"in", "end"}, Tweak: chain(jsonStubs, c08(0, "depth", 1, "width", 2))},
 			{Dir: "jsonpb", Name: "ZZ_C08_convert", Variant: "depth2,width2", Tiers: "thorough", Reach: []string{"in", "end"}, Tweak: chain(jsonStubs, c08(0, "depth", 2, "width", 2))},
 		},
 	})
-	b58Stubs := func(kv ...interface{}) func(c *sym.HarnessCfg, tier string) {
-		return func(c *sym.HarnessCfg, tier string) {
-			c.Stubs = map[string]string{
-				"github.com/gcash/bchutil/base58.Encode": "zzStubEncode",
-				"github.com/gcash/bchutil/base58.Decode": "zzStubDecode",
-			}
-			for i := 0; i+1 < len(kv); i += 2 {
-				c.Params[kv[i].(string)] = kv[i+1].(int)
-			}
-		}
-	}
 	realB58 := func(kv ...interface{}) func(c *sym.HarnessCfg, tier string) {
 		return func(c *sym.HarnessCfg, tier string) {
 			c.RealBase58 = true
@@ -411,7 +412,7 @@ func init() {
 		"an allocation sized by a symbolic count must not exceed 4096 elements for inputs of <= 6 bytes (gcs harnesses); other allocations have concrete sizes per path",
 		"termination: every loop carries an unwinding bound (4096); exceeding it on a feasible path is reported",
 	}, []string{"inputs longer than the tier bounds", "time complexity beyond 'no path exceeds the unwinding bound'"},
-		"cashaddr: 1..3 letter prefixes x 0..9 symbols; DecodeAddress on arbitrary ASCII strings <=4 bytes and prefix+<=9 symbols x 6 nets; filter-load 0..36000 bytes x HashFuncs {0,1,2,50}; gcs <=3 / <=6 bytes, arbitrary N,P,M; JSON trees depth 1 width 2 (thorough: depth 2)", "larger strings; raw address strings just above the length pre-check; N-prefixed gcs filters")
+		"Base58Check on every decoded byte string of 0..8 bytes (valid and invalid checksums); cashaddr: 1..3 letter prefixes x 0..9 symbols; DecodeAddress on arbitrary ASCII strings <=4 bytes and prefix+<=9 symbols x 6 nets; filter-load 0..36000 bytes x HashFuncs {0,1,2,50}; gcs <=3 / <=6 bytes, arbitrary N,P,M; JSON trees depth 1 width 2 (thorough: depth 2)", "larger strings; raw address strings just above the length pre-check; N-prefixed gcs filters")
 	meta("C15", []string{"crypto idealised and Base58 stubbed as in C04", "histories: one derivation (Child / Neuter / String+parse) followed by one of Zero(derived), Zero(original), SetNet, Child"},
 		[]string{"longer histories; NewExtendedKey with caller-owned buffers (documented custom API)"},
 		"two-step histories over {Child,Neuter,parse} x {Zero,Zero,SetNet,Child}, private and public, cached and uncached public key", "same plus a second derivation after Child")
@@ -429,7 +430,7 @@ func init() {
 		"double-SHA256 is an uninterpreted, collision-free function",
 		"hash pointers in the message are non-nil (guaranteed by wire decoding)",
 	}, []string{"counts/hash lists/flag strings above the tier bound", "a second ExtractMatches call on the same object"},
-		"quick: declared count in {0,1,2,MaxTxnCount,MaxTxnCount+1,2^32-1}, 0..3 hashes over a 4-element symbolic alphabet, all flag strings of 0..1 bytes", "thorough: count<=4, full 256-bit symbolic hashes")
+		"quick: declared count in {0,1,2,MaxTxnCount,MaxTxnCount+1,2^32-1} and every count above MaxTxnCount (symbolic), 0..3 hashes over a 4-element symbolic alphabet, all flag strings of 0..1 bytes", "thorough: count<=4, full 256-bit symbolic hashes")
 	meta("C13", []string{
 		"SipHash-2-4 is an uninterpreted function of (item, key): item hashes are arbitrary 64-bit values",
 		"fastReduction is replaced by its contract floor(v*NM/2^64) < NM (uninterpreted below that bound); the contract is proved in C14 (ZZ_C14_fastreduction)",
